@@ -227,8 +227,40 @@ class _PositionalPrimitives(ast.NodeTransformer):
         return node
 
 
+def _inline_field_factories(tree):
+    """``item_class = _item_class_attribute(default=str)`` in a class body, where the module level helper is nothing but
+    ``return attr.ib(validator=..., **kwargs)``: the call is replaced by the ``attr.ib(...)`` it returns (the helper's ``**kwargs``
+    by the keywords of the call, its module level names stay names), so that the class has the attrs field it has at run time"""
+    import copy
+    factories = {}
+    for st in tree.body:
+        if isinstance(st, ast.FunctionDef) and not st.decorator_list and len(st.body) == 1 and isinstance(st.body[0], ast.Return) and \
+                isinstance(st.body[0].value, ast.Call) and ast.unparse(st.body[0].value.func) in ('attr.ib', 'attr.attrib', 'attr.field') and \
+                not st.args.args and not st.args.posonlyargs and not st.args.kwonlyargs and st.args.vararg is None and st.args.kwarg is not None:
+            factories[st.name] = st
+    if not factories:
+        return
+    for cls in ast.walk(tree):
+        if not isinstance(cls, ast.ClassDef):
+            continue
+        for st in cls.body:
+            if isinstance(st, ast.Assign) and isinstance(st.value, ast.Call) and isinstance(st.value.func, ast.Name) and \
+                    st.value.func.id in factories and not st.value.args:
+                fn = factories[st.value.func.id]
+                call = copy.deepcopy(fn.body[0].value)
+                kw = []
+                for k in call.keywords:
+                    if k.arg is None and isinstance(k.value, ast.Name) and k.value.id == fn.args.kwarg.arg:
+                        kw.extend(copy.deepcopy(st.value.keywords))
+                    else:
+                        kw.append(k)
+                call.keywords = kw
+                st.value = ast.copy_location(call, st.value)
+
+
 def normalize_module(tree, path=None):
     tree = _Negations().visit(tree)
+    _inline_field_factories(tree)
     sigs = primitive_signatures(path) if path else {}
     if sigs:
         tree = _PositionalPrimitives(sigs).visit(tree)
